@@ -139,6 +139,7 @@ func cmdRun(args []string) int {
 	subtree := fs.String("subtree", "", "explore only under this decision prefix")
 	cpuprof := fs.String("cpuprofile", "", "write CPU profile")
 	slow := fs.String("slowlog", "", "directory for scripts of slow queries")
+	params := fs.String("param", "", "harness parameters name=int[,name=int...]")
 	fs.Parse(args)
 	if *cpuprof != "" {
 		f, _ := os.Create(*cpuprof)
@@ -169,6 +170,13 @@ func cmdRun(args []string) int {
 	l.world.Trace = *trace
 	opts := defaultOpts(*tier)
 	opts.Explore = *explore
+	for _, kv := range strings.Split(*params, ",") {
+		if k, v, ok := strings.Cut(kv, "="); ok {
+			var n int
+			fmt.Sscan(v, &n)
+			opts.Params[k] = n
+		}
+	}
 	if *subtree != "" {
 		for _, s := range strings.Split(*subtree, ",") {
 			var v int
